@@ -1396,8 +1396,10 @@ class Array(RegisterObject):
 
         arg = type(self)._generic_arg_
 
-        start = arg.offset - self._global_offset_
-        stop = arg.end - self._global_offset_
+        # element offsets are relative to the array (which is
+        # the parent object of its elements)
+        start = 0
+        stop = arg.end - arg.offset
         step = arg.array_step
 
         elements = []
